@@ -144,11 +144,12 @@ def check(world, tier):
     for x in wrong_end:
         r.ob(False, "remove-not-oldest", "remove takes chunks with %s: not the oldest ones" % base_name(x), x.loc)
     for x in drs:
-        sub = x.args[1][1] if isinstance(x.args[1], tuple) and x.args[1][0] == "agg" else {}
-        st_, en_ = sub.get((0,)), sub.get((1,))
-        r.ob(st_ is not None and st_[0] == "i" and st_[1] == (0, ()), "remove-not-oldest", "remove does not drain from the front (the oldest chunks)", x.loc,
-             sample={"drain range start": 0})
-        r.ob(en_ is not None and en_[0] == "i" and k is not None and en_[1] == k[1], "remove-range-end", "remove(k) does not drain exactly k chunks", x.loc)
+        for (node_, st_, en_) in e.drain_log:
+            if node_ != x.node:
+                continue
+            r.ob(st_ == (0, ()), "remove-not-oldest", "remove does not drain from the front (the oldest chunks)", x.loc,
+                 sample={"drain range start": 0})
+            r.ob(k is not None and en_ == k[1], "remove-range-end", "remove(k) does not drain exactly k chunks", x.loc)
     a = rep.clause("C18.add", "add(x): fails without effect when full; otherwise appends exactly x")
     e = runs["add"]
     len0 = lin.var(e.named(("len", self_root(e), fi["elements"]), None))
